@@ -61,8 +61,17 @@ def _solve1(pc, goal, timeout_ms, want_model=True, use_cvc5=True):
                 r = s.check()
             if r == z3.unsat:
                 return "unsat", time.time() - t0, "z3-qf", None
-            if r == z3.sat:
+            if r == z3.sat and _.get("truncated"):
+                # the instantiation stopped on its time / instance budget (load dependent): its counter-model says nothing
+                if os.environ.get("PYVC_DEBUG"):
+                    print("qf-stage sat after a truncated instantiation: not a candidate")
+            elif r == z3.sat:
                 qf_model = s.model()
+                if os.environ.get("PYVC_DUMP_CAND"):
+                    s0 = z3.Solver()
+                    s0.add(*fs)
+                    with open(os.path.join(os.environ["PYVC_DUMP_CAND"], f"cand{abs(hash(s0.to_smt2())) % 10**8}.smt2"), "w") as f:
+                        f.write(s0.to_smt2())
                 if os.environ.get("PYVC_DEBUG"):
                     print("qf-stage sat (candidate)", _["instances"], _["rounds"])
             elif os.environ.get("PYVC_DEBUG"):
@@ -70,6 +79,9 @@ def _solve1(pc, goal, timeout_ms, want_model=True, use_cvc5=True):
         except (OverflowError, ValueError, z3.Z3Exception) as e:
             if os.environ.get("PYVC_DEBUG"):
                 print("qf-stage failed:", repr(e)[:200])
+                if os.environ.get("PYVC_DEBUG") == "2":
+                    import traceback
+                    traceback.print_exc()
     s = z3.Solver()
     s.set("timeout", timeout_ms if not quantified else min(timeout_ms, 10000))
     s.add(*fs)
